@@ -46,12 +46,20 @@ pub open spec fn ranked<N, const K: usize>(a: Arena<N, K>, d: Map<usize, nat>) -
         a.dom().contains(c) && a[c].parent.is_some() ==> d[a[c].parent.unwrap()] < d[c]
 }
 
+// ghost height map, strictly decreasing along child edges (used as termination measure by the
+// traversal specifications; its existence follows from acyclicity of a finite arena and is kept
+// as part of the invariant)
+pub open spec fn ranked_down<N, const K: usize>(a: Arena<N, K>, h: Map<usize, nat>) -> bool {
+    forall|i: usize, l: int| #![trigger a[i].children[l]]
+        a.dom().contains(i) && 0 <= l < K && a[i].children[l].is_some() ==> h[a[i].children[l].unwrap()] < h[i]
+}
+
 pub open spec fn links_ok<N, const K: usize>(a: Arena<N, K>) -> bool {
     kids_ok(a) && parents_ok(a) && kids_unique(a) && leaf_ok(a)
 }
 
 pub open spec fn wf_at<N, const K: usize>(a: Arena<N, K>, root: Option<usize>) -> bool {
-    links_ok(a) && root_ok(a, root) && exists|d: Map<usize, nat>| ranked(a, d)
+    links_ok(a) && root_ok(a, root) && (exists|d: Map<usize, nat>| ranked(a, d)) && (exists|h: Map<usize, nat>| ranked_down(a, h))
 }
 
 // n-th ancestor relation (fuel = number of parent steps, >= 1): `anc` is a proper ancestor of `i`
